@@ -19,8 +19,10 @@ import (
 )
 
 type exec struct {
-	c    *container.Container
-	kept *container.Container // most recently split-off container, read again later (kdump)
+	c     *container.Container   // the current container (= conts[cur])
+	conts []*container.Container // all live containers of the case
+	cur   int
+	kept  *container.Container // most recently split-off container, read again later (kdump)
 	held []heldSlice          // the most recent byte slices the container handed out, looked at again later (held)
 }
 
@@ -56,6 +58,7 @@ func (e *exec) Do(line string) string {
 	}
 	if f[0] == "new" {
 		e.c = container.New(hexes(f[1:])...)
+		e.conts, e.cur = []*container.Container{e.c}, 0
 		e.kept = nil
 		e.held = nil
 		return "ok"
@@ -71,6 +74,7 @@ func (e *exec) Do(line string) string {
 	}
 	if f[0] == "newc" { // the deprecated second constructor
 		e.c = container.NewContainer(hexes(f[1:])...)
+		e.conts, e.cur = []*container.Container{e.c}, 0
 		e.kept = nil
 		e.held = nil
 		return "ok"
@@ -91,6 +95,34 @@ func (e *exec) Do(line string) string {
 		return "b " + hxlib.Hex(x)
 	}
 	switch f[0] {
+	case "also": // a further live container; the current one stays current
+		e.conts = append(e.conts, container.New(hexes(f[1:])...))
+		return "ok"
+	case "sel":
+		i := atoi()
+		if i < 0 || i >= len(e.conts) {
+			return "bad-op"
+		}
+		e.cur, e.c = i, e.conts[i]
+		return "ok"
+	case "appendfrom", "appendfromblock": // the argument is another live container in whatever state it is
+		j := atoi()
+		if j < 0 || j >= len(e.conts) {
+			return "bad-op"
+		}
+		if f[0] == "appendfrom" {
+			c.AppendContainer(e.conts[j])
+		} else {
+			c.AppendContainerAsBlock(e.conts[j])
+		}
+		return "ok"
+	case "keepslot": // the split-off container becomes a further live container
+		if e.kept == nil {
+			return "nil"
+		}
+		e.conts = append(e.conts, e.kept)
+		e.kept = nil // moved, not shared: one container object is never held in two slots
+		return "ok"
 	case "held": // the slices handed out earlier must still hold what they held when they were returned
 		for _, h := range e.held {
 			if now := hxlib.Hex(h.data); now != h.was {
@@ -457,7 +489,9 @@ func refPut(n uint64) []byte {
 }
 
 func monitor(c hxlib.Case, outs []string) (vs []hxlib.Violation) {
-	var q []byte
+	var q []byte      // the current byte queue
+	var qs [][]byte   // the other live queues (qs[cur] is stale while q is current)
+	cur := 0
 	var kept []byte
 	haveKept := false
 	started := false
@@ -502,8 +536,36 @@ func monitor(c hxlib.Case, outs []string) (vs []hxlib.Violation) {
 		switch f[0] {
 		case "new", "newc":
 			q = cat(f[1:])
+			qs, cur = [][]byte{nil}, 0
 			started = true
 			haveKept = false
+		case "also":
+			qs = append(qs, cat(f[1:]))
+		case "sel":
+			if i := atoi(); i >= 0 && i < len(qs) {
+				qs[cur] = q
+				cur, q = i, append([]byte{}, qs[i]...)
+			} else {
+				want = "bad-op"
+			}
+		case "appendfrom", "appendfromblock":
+			if j := atoi(); j >= 0 && j < len(qs) {
+				qs[cur] = q
+				other := append([]byte{}, qs[j]...)
+				if f[0] == "appendfromblock" {
+					q = append(q, refPut(uint64(len(other)))...)
+				}
+				q = append(q, other...)
+			} else {
+				want = "bad-op"
+			}
+		case "keepslot":
+			if haveKept {
+				qs = append(qs, append([]byte{}, kept...))
+				haveKept = false
+			} else {
+				want = "nil"
+			}
 		case "json", "jsonm":
 			want = hx([]byte(`"` + base64.StdEncoding.EncodeToString(q) + `"`))
 		case "unjson", "unjsonm":
@@ -830,6 +892,48 @@ func generate(r *hxlib.Run, emit func(hxlib.Case)) {
 		}
 		lines = append(lines, "len", "dump", "kdump")
 		emit(hxlib.Case{Lines: lines, NonTrivial: true, Kind: "split-then-modify"})
+	}
+	// operations that take ANOTHER container as their argument: 2–4 live containers, each with a history of its
+	// own (consumed compartments, offset > 0, spare slots in front after a prepend, split-off containers), handed
+	// to each other — and to themselves — in whatever state they are
+	for i := 0; i < r.Budget(2500, 100000); i++ {
+		lines := []string{strings.TrimSpace([]string{"new", "newc"}[rng.Intn(2)] + " " + slices() + " " + slice())}
+		n := 1
+		for j := 0; j < 1+rng.Intn(3); j++ {
+			lines = append(lines, strings.TrimSpace("also "+slices()+" "+slice()))
+			n++
+		}
+		for j := 0; j < 4+rng.Intn(16); j++ {
+			switch rng.Intn(16) {
+			case 0, 1:
+				lines = append(lines, "sel "+strconv.Itoa(rng.Intn(n)))
+			case 2, 3, 4:
+				lines = append(lines, "get "+strconv.Itoa(1+rng.Intn(20)))
+			case 5:
+				lines = append(lines, "prepend "+slice())
+			case 6:
+				lines = append(lines, "getmax "+strconv.Itoa(1+rng.Intn(20)))
+			case 7:
+				lines = append(lines, "wts "+strconv.Itoa(1+rng.Intn(20)))
+			case 8:
+				lines = append(lines, []string{"n8", "n64", "block", "getall", "compile", "prependlen"}[rng.Intn(6)])
+			case 9:
+				lines = append(lines, "getcont "+strconv.Itoa(1+rng.Intn(12)), "keepslot")
+				n++ // optimistic: if the split failed, the slot index is simply out of range later (bad-op on both sides)
+			case 10:
+				lines = append(lines, "append "+slice())
+			default:
+				lines = append(lines, []string{"appendfrom ", "appendfrom ", "appendfromblock "}[rng.Intn(3)]+strconv.Itoa(rng.Intn(n)), "len")
+			}
+			if j%5 == 4 {
+				lines = append(lines, "len", "dump")
+			}
+		}
+		for k := 0; k < n; k++ {
+			lines = append(lines, "sel "+strconv.Itoa(k), "len", "dump")
+		}
+		lines = append(lines, "held")
+		emit(hxlib.Case{Lines: lines, NonTrivial: true, Kind: "container-arguments"})
 	}
 	// JSON round trip (serialization.go): a container with history is serialised; the text is read back into
 	// the same container later, or into another container that has been used before (offset > 0, spare slots)
@@ -1206,7 +1310,7 @@ func oddJSON(rng interface{ Intn(int) int }) []byte {
 func main() {
 	hxlib.Main(&hxlib.Harness{
 		Prop:     "C16",
-		Rule:     "(also: 2–32 goroutines each driving a container of their own next to a byte queue of their own — ties that containers share no state) (also: both constructors New/NewContainer; MarshalJSON/UnmarshalJSON directly and through encoding/json, round trip into the same and into another used container, damaged base64 texts; JSON texts outside the modelled codec and short-writing writers on the implementation only; WriteAllTo into writers that fail after k bytes) (also: containers with 90–230 compartments consumed piecewise; split-off containers read again after the parent was modified) each case creates a container (empty / one slice / many slices incl. empty ones) and applies 1–60 (thorough: up to 400) random public method calls with slices of length 0, 1, 2–16, 200, numbers at all varint boundaries up to 2^64-1, requested lengths from {-5,-1,0,1,exact,exact±1,huge,MinInt}; Length/HoldsData/full dump after every 8th op and at the end. Non-trivial: at least one consuming op after at least one append and one prepend (so more than one compartment and the offset machinery are exercised); distinct by hash of the op lines.",
+		Rule:     "(also: 2–4 live containers per case, each with a history of its own, handed to each other and to themselves through AppendContainer/AppendContainerAsBlock in whatever state they are, incl. split-off containers) (also: 2–32 goroutines each driving a container of their own next to a byte queue of their own — ties that containers share no state) (also: both constructors New/NewContainer; MarshalJSON/UnmarshalJSON directly and through encoding/json, round trip into the same and into another used container, damaged base64 texts; JSON texts outside the modelled codec and short-writing writers on the implementation only; WriteAllTo into writers that fail after k bytes) (also: containers with 90–230 compartments consumed piecewise; split-off containers read again after the parent was modified) each case creates a container (empty / one slice / many slices incl. empty ones) and applies 1–60 (thorough: up to 400) random public method calls with slices of length 0, 1, 2–16, 200, numbers at all varint boundaries up to 2^64-1, requested lengths from {-5,-1,0,1,exact,exact±1,huge,MinInt}; Length/HoldsData/full dump after every 8th op and at the end. Non-trivial: at least one consuming op after at least one append and one prepend (so more than one compartment and the offset machinery are exercised); distinct by hash of the op lines.",
 		Generate: generate,
 		NewExec:  func(*hxlib.Run) hxlib.Exec { return &exec{} },
 		Monitor:  monitor,
